@@ -37,6 +37,9 @@ type SS struct {
 	overAt    time.Duration
 	overIDs   []int32
 	runIDs    map[int32]bool
+	proto     string
+	shutdown  bool
+	shutErr   string
 }
 
 type sdisp struct{ s *SS }
@@ -86,8 +89,16 @@ func (s *SS) Run(c *scen.Ctx) {
 	simnet.Cfg.Fragment = simrt.Draw(2, "c19s.frag") == 1
 	c.Describe("pool", s.size)
 	c.Describe("queue_cap", s.qcap)
+	// the transport: the stream handler, or the datagram handler with its single receive loop;
+	// and, for streams, a graceful shutdown that arrives while requests are still queued
+	s.proto = []string{"tcp", "tcp", "udp"}[simrt.Draw(3, "c19s.proto")]
+	s.shutdown = s.proto == "tcp" && simrt.Draw(3, "c19s.shutdown") == 2
+	simnet.Cfg.UDPDup, simnet.Cfg.UDPLoss = false, false
+	shutAfter := time.Duration(simrt.Draw(40, "c19s.shutafter")) * time.Millisecond
+	c.Describe("proto", s.proto)
+	c.Describe("shutdown_with_backlog", s.shutdown)
 	tars.VerifFreshApp()
-	conf := &transport.TarsServerConf{Proto: "tcp", Address: saddr, MaxInvoke: int32(s.size), QueueCap: s.qcap,
+	conf := &transport.TarsServerConf{Proto: s.proto, Address: saddr, MaxInvoke: int32(s.size), QueueCap: s.qcap,
 		AcceptTimeout: 500 * time.Millisecond, IdleTimeout: 600 * time.Second}
 	srv, _ := tars.VerifNewServer(&sdisp{s}, nil, true, conf)
 	if err := srv.Listen(); err != nil {
@@ -114,6 +125,31 @@ func (s *SS) Run(c *scen.Ctx) {
 		wg.Add(1)
 		simrt.GoNamed(fmt.Sprintf("rawclient%d", i), func() {
 			defer wg.Done()
+			if s.proto == "udp" {
+				u, err := simnet.ListenUDP("udp", nil)
+				if err != nil {
+					return
+				}
+				sa, _ := simnet.ResolveUDPAddr("udp", saddr)
+				simrt.Go(func() {
+					b := make([]byte, 65535)
+					for {
+						if _, _, err := u.ReadFromUDP(b); err != nil {
+							return
+						}
+					}
+				})
+				for k := 0; k < len(reqs); {
+					burst := 1 + simrt.Draw(6, "c19s.burst")
+					for j := 0; j < burst && k < len(reqs); j, k = j+1, k+1 {
+						u.WriteToUDP(refcodec.EncodeRequest(reqs[k]), sa)
+					}
+					if simrt.Draw(3, "c19s.pause") == 2 {
+						simrt.Sleep(time.Duration(1+simrt.Draw(60, "c19s.pausems")) * time.Millisecond)
+					}
+				}
+				return
+			}
 			cn, err := simnet.Dial("tcp", saddr)
 			if err != nil {
 				return
@@ -149,6 +185,15 @@ func (s *SS) Run(c *scen.Ctx) {
 		})
 	}
 	wg.Wait()
+	if s.shutdown {
+		simrt.Sleep(shutAfter)
+		ctx, cancel := context.WithTimeout(context.Background(), total+20*time.Second)
+		if err := srv.Shutdown(ctx); err != nil {
+			s.shutErr = err.Error()
+		}
+		cancel()
+		c.Count("probe.server_shutdown_with_requests_outstanding", 1)
+	}
 	simrt.Sleep(total + 3*time.Second)
 	s.mu.Lock()
 	s.done = true
@@ -176,6 +221,45 @@ func (s *SS) Check(c *scen.Ctx, res *simrt.Result) {
 		for _, f := range frames {
 			if r, err := refcodec.DecodeResponse(f); err == nil {
 				s.answered[r.RequestID]++
+			}
+		}
+		if s.shutdown {
+			// the client may have written requests the server never read before it stopped
+			// reading: only what its receive loop consumed was handed to the pool
+			for id := range s.sent {
+				delete(s.sent, id)
+			}
+		}
+	}
+	if s.shutdown {
+		key += ",shutdown"
+		for _, cn := range s.conns {
+			b := cn.Pair.C2S.Bytes()
+			frames, _, _ := refcodec.SplitFrames(b[:cn.Pair.C2S.ReadOffset()], 0)
+			for _, f := range frames {
+				if q, err := refcodec.DecodeRequest(f); err == nil {
+					s.sent[q.RequestID] = true
+				}
+			}
+		}
+	}
+	if s.proto == "udp" {
+		key += ",udp"
+		for _, u := range simnet.UDPSockets() {
+			if u.LocalAddr().String() != saddr {
+				continue
+			}
+			for _, d := range u.Received {
+				if q, err := refcodec.DecodeRequest(d); err == nil {
+					s.sent[q.RequestID] = true
+				}
+			}
+			for _, f := range u.Sent {
+				if len(f) > 4 {
+					if r, err := refcodec.DecodeResponse(f); err == nil {
+						s.answered[r.RequestID]++
+					}
+				}
 			}
 		}
 	}
